@@ -165,6 +165,62 @@ func TouchMap[K comparable, V any](m map[K]V, write bool, site string) {
 	touch(s, *(*unsafe.Pointer)(unsafe.Pointer(&m)), write, site)
 }
 
+// TouchDeep is placed before a value is handed to a JSON encoder: the encoder reads every map
+// reachable from it, so each is probed as a read (bounded walk).
+func TouchDeep(v any, site string) {
+	s := active
+	if s == nil || s.aborting || v == nil {
+		return
+	}
+	var maps []unsafe.Pointer
+	seen := map[unsafe.Pointer]bool{}
+	var walk func(rv reflect.Value, depth int)
+	walk = func(rv reflect.Value, depth int) {
+		if depth > 8 || len(maps) >= 48 || !rv.IsValid() {
+			return
+		}
+		switch rv.Kind() {
+		case reflect.Interface, reflect.Pointer:
+			if !rv.IsNil() {
+				walk(rv.Elem(), depth+1)
+			}
+		case reflect.Map:
+			if rv.IsNil() {
+				return
+			}
+			p := rv.UnsafePointer()
+			if seen[p] {
+				return
+			}
+			seen[p] = true
+			maps = append(maps, p)
+			// deterministic order (Go's map iteration order is random and would not replay)
+			ks := rv.MapKeys()
+			sort.Slice(ks, func(i, j int) bool { return fmt.Sprint(ks[i].Interface()) < fmt.Sprint(ks[j].Interface()) })
+			for _, k := range ks {
+				walk(rv.MapIndex(k), depth+1)
+			}
+		case reflect.Slice, reflect.Array:
+			for i := 0; i < rv.Len() && i < 64; i++ {
+				walk(rv.Index(i), depth+1)
+			}
+		case reflect.Struct:
+			for i := 0; i < rv.NumField(); i++ {
+				if rv.Type().Field(i).IsExported() {
+					walk(rv.Field(i), depth+1)
+				}
+			}
+		}
+	}
+	walk(reflect.ValueOf(v), 0)
+	for _, p := range maps {
+		if s.aborting {
+			return
+		}
+		touch(s, p, false, site)
+	}
+}
+
 // The identity is kept as a real pointer, not a uintptr: a probed local variable therefore
 // escapes to the heap, so its address cannot be reused by another goroutine's stack while a
 // parked task still refers to it (stacks of parked goroutines may be moved by the runtime).
